@@ -38,14 +38,6 @@ Lemma up_length_zero : forall (A : Type) (l : list A), Z.of_nat (length l) = 0 -
 Proof. intros A l H. destruct l; [reflexivity|cbn [length] in H; lia]. Qed.
 
 (* ------------------------------------------------------------------ the writer *)
-(* the log changed according to event e with payload p *)
-Definition log_ev (w w' : writer) (p : outp) (e : wev) : Prop :=
-  match e with
-  | WNone => w_log w' = w_log w
-  | WDone => w_log w' = w_log w ++ [WFull p]
-  | WShort n => w_log w' = w_log w ++ [WPart n p]
-  end.
-
 Lemma log_ev_wev : forall w w' p e, log_ev w w' p e -> wev_of w w' = e.
 Proof.
   intros w w' p e H. unfold wev_of. destruct e as [| |k]; cbn [log_ev] in H; rewrite H.
@@ -63,9 +55,6 @@ Proof.
   - eexists _, false, WNone. split; [reflexivity|]. split; [reflexivity|]. split; discriminate.
   - eexists _, false, (WShort k). split; [reflexivity|]. split; [reflexivity|]. split; discriminate.
 Qed.
-
-(* a fault-free head of the schedule: the write is acknowledged *)
-Definition next_write_ok (w : writer) : Prop := match w_faults w with [] | FNone :: _ => True | _ => False end.
 
 Lemma w_write_ok : forall w p, next_write_ok w -> exists w', w_write w p = (w', true) /\ w_log w' = w_log w ++ [WFull p].
 Proof.
@@ -117,11 +106,6 @@ Qed.
 Lemma uc_set_meta_inv : forall j n u m, uc_inv j n u ->
   uc_inv j n (mkUcoll (uc_json u) (uc_batch u) (uc_mcount u) m (uc_samples u)).
 Proof. intros j n u m H. exact H. Qed.
-
-(* the exact outcome of Add *)
-Definition uc_add_res (u : ucoll) (d : doc) : ares :=
-  if negb (uc_mcount u =? 0) && negb (Z.of_nat (length d) =? uc_mcount u) then RCount
-  else if uc_batch u <=? Z.of_nat (length (uc_samples u)) then RFull else ROk.
 
 Lemma uc_add_spec : forall j n u d, 1 <= n -> uc_inv j n u ->
   exists u', uc_add u d = (u', uc_add_res u d) /\ uc_inv j n u' /\ uc_meta u' = uc_meta u /\
@@ -272,12 +256,6 @@ Proof.
 Qed.
 
 (* ------------------------------------------------------------------ streamingDynamicCollector over an uncompressed collector *)
-Definition sd_changed (c : sdcoll) (d : doc) : bool :=
-  match sd_hash c with
-  | None => true
-  | Some h => negb (sd_mcount c =? snd (schema_sig d)) || negb (bytes_eqb h (fst (schema_sig d)))
-  end.
-
 Definition sd_holds (j : bool) (n : Z) (c : sdcoll) (u : ucoll) : Prop :=
   sc_holds j n (sd_s c) u /\
   match sd_hash c with
@@ -771,4 +749,143 @@ Lemma reachable_inv : forall k n st, unc_kind k = true -> 1 <= n -> reachable de
 Proof.
   intros k n st Hk Hn (fs & ops & E). rewrite <- (spec_trace_run ops _ aspec0) in E. subst st.
   eexists. apply spec_trace_inv; [exact Hn|]. apply init_inv; [exact Hk|lia].
+Qed.
+
+(* ------------------------------------------------------------------ C17_log *)
+Theorem unc_log : forall k n fs ops, unc_kind k = true -> 1 <= n ->
+  let st := fst (spec_trace deflate (init_state k n fs) aspec0 ops) in
+  let a := snd (spec_trace deflate (init_state k n fs) aspec0 ops) in
+  st = fst (run deflate (init_state k n fs) ops) /\
+  refines (kind_json k) st a /\
+  c_resolve deflate (fst st) = spec_resolve (kind_json k) a /\
+  snd (c_info (fst st)) = Z.of_nat (length (a_pend a)).
+Proof.
+  intros k n fs ops Hk Hn. cbn zeta.
+  pose proof (spec_trace_inv (kind_json k) n ops _ _ Hn (init_inv k n fs Hk ltac:(lia))) as HI.
+  split; [apply spec_trace_run|].
+  destruct (spec_trace deflate (init_state k n fs) aspec0 ops) as [[c w] a]. cbn [fst snd] in *.
+  destruct (Inv_obs _ _ _ _ _ HI) as (Hr & Hi & _). destruct HI as (_ & Href & _).
+  split; [exact Href|]. split; [exact Hr|exact Hi].
+Qed.
+
+(* the specification's total: what Add accepted and Reset did not discard *)
+Lemma spec_flush_total : forall a e, a_total (spec_flush a e) = a_total a.
+Proof.
+  intros a [| |k]; unfold a_total; cbn [spec_flush a_recs a_pend]; [reflexivity| |].
+  - rewrite up_flat_map_snoc. cbn [gr_durable gr_part gr_samples]. rewrite app_nil_r. reflexivity.
+  - rewrite up_flat_map_snoc. cbn [gr_durable gr_part]. rewrite app_nil_r. reflexivity.
+Qed.
+
+Lemma spec_op_total : forall a o b,
+  a_total (spec_op a o b) =
+  match o, b with
+  | OAdd d _, BAdd ROk => a_total a ++ [d]
+  | OReset, _ => firstn (length (flat_map gr_durable (a_recs a))) (a_total a)
+  | _, _ => a_total a
+  end.
+Proof.
+  intros a o b. unfold a_total, spec_op.
+  destruct o as [d now| | | | |m|]; try reflexivity.
+  - destruct b as [r| | | | |]; try reflexivity. destruct r; try reflexivity. cbn [a_recs a_pend]. rewrite app_assoc. reflexivity.
+  - cbn [a_recs a_pend]. rewrite up_firstn_app, app_nil_r. reflexivity.
+Qed.
+
+(* ------------------------------------------------------------------ C17_flavour *)
+Definition obs_flavour (j : bool) (b : obs) : Prop :=
+  match b with BResolve (Some o) => exists ds, o = ODocs j ds | _ => True end.
+
+Lemma run_obs_flavour : forall j n ops st a, 1 <= n -> Inv j n st a -> Forall (obs_flavour j) (snd (run deflate st ops)).
+Proof.
+  intros j n ops. induction ops as [|o r IH]; intros st a Hn HI; [constructor|].
+  cbn [run]. destruct (step deflate st o) as [st' b] eqn:Es.
+  destruct (step_inv j n st a o st' b Hn HI Es) as (HI' & Hobs).
+  specialize (IH st' _ Hn HI'). destruct (run deflate st' r) as [st'' bs]. cbn [snd] in *.
+  constructor; [|exact IH].
+  destruct b as [| [o'|] | | | |]; cbn [obs_flavour]; try exact I.
+  cbn [obs_spec] in Hobs. unfold spec_resolve in Hobs. destruct (a_pend a); [discriminate Hobs|].
+  injection Hobs as Hobs. subst o'. eexists. reflexivity.
+Qed.
+
+Theorem unc_flavour : forall k n fs ops, unc_kind k = true -> 1 <= n ->
+  let res := run deflate (init_state k n fs) ops in
+  cjson (fst (fst res)) = Some (kind_json k) /\
+  Forall (fun r => exists ds, wrec_outp r = ODocs (kind_json k) ds) (w_log (snd (fst res))) /\
+  Forall (obs_flavour (kind_json k)) (snd res).
+Proof.
+  intros k n fs ops Hk Hn. cbn zeta.
+  pose proof (init_inv k n fs Hk ltac:(lia)) as HI0.
+  split; [|split; [|apply (run_obs_flavour _ n ops _ _ Hn HI0)]].
+  - pose proof (spec_trace_inv (kind_json k) n ops _ _ Hn HI0) as HI. rewrite spec_trace_run in HI.
+    destruct (fst (run deflate (init_state k n fs) ops)) as [c w]. apply (Inv_obs _ _ _ _ _ HI).
+  - pose proof (spec_trace_inv (kind_json k) n ops _ _ Hn HI0) as HI. rewrite spec_trace_run in HI.
+    destruct HI as (_ & (Hlog & _) & _). rewrite Hlog. apply Forall_forall. intros r Hin.
+    apply in_map_iff in Hin. destruct Hin as (g & E & _). subst r. unfold wrec_of.
+    destruct (gr_part g); cbn [wrec_outp]; eexists; reflexivity.
+Qed.
+
+(* ------------------------------------------------------------------ C17_batch *)
+Theorem unc_batch_bound : forall k n fs ops, unc_kind k = true -> 1 <= n ->
+  let a := snd (spec_trace deflate (init_state k n fs) aspec0 ops) in
+  recs_bounded n a /\ Z.of_nat (length (a_pend a)) <= n.
+Proof.
+  intros k n fs ops Hk Hn. cbn zeta.
+  pose proof (spec_trace_inv (kind_json k) n ops _ _ Hn (init_inv k n fs Hk ltac:(lia))) as HI.
+  destruct (spec_trace deflate (init_state k n fs) aspec0 ops) as [[c w] a]. cbn [fst snd] in *.
+  destruct (Inv_obs _ _ _ _ _ HI) as (_ & _ & Hlen & _). destruct HI as (_ & _ & Hb & _). split; assumption.
+Qed.
+
+Lemma reachable_holds : forall k n c w, unc_kind k = true -> 1 <= n -> reachable deflate k n (c, w) ->
+  exists u, st_holds (kind_json k) n c u.
+Proof. intros k n c w Hk Hn Hr. destruct (reachable_inv k n (c, w) Hk Hn Hr) as (a & (Hu & _)). exact Hu. Qed.
+
+Definition cls (c : coll) : nat :=
+  match c with CBase _ => 0 | CBatch _ => 1 | CDyn _ => 2 | CStream _ => 3 | CSDyn _ => 4 | CUnc _ => 5 end%nat.
+
+Ltac split_lets :=
+  repeat match goal with
+         | |- context [let '(_, _) := ?x in _] => destruct x
+         | |- context [if ?x then _ else _] => destruct x
+         | |- context [match ?x with Some _ => _ | None => _ end] => destruct x
+         end.
+
+Lemma c_add_cls : forall c w d now, cls (fst (fst (c_add deflate c w d now))) = cls c.
+Proof. intros c w d now. destruct c; cbn [c_add]; split_lets; reflexivity. Qed.
+Lemma c_add_bad_cls : forall c w, cls (fst (fst (c_add_bad deflate c w))) = cls c.
+Proof. intros c w. destruct c; cbn [c_add_bad]; split_lets; reflexivity. Qed.
+Lemma c_reset_cls : forall c, cls (c_reset c) = cls c.
+Proof. intros c. destruct c; reflexivity. Qed.
+Lemma c_flush_cls : forall c w, cls (fst (fst (c_flush deflate c w))) = cls c.
+Proof.
+  intros c w. destruct c; cbn [c_flush]; unfold sc_flush, sd_flush, flush_with; split_lets; reflexivity.
+Qed.
+
+Lemma step_cls : forall st o, cls (fst (fst (step deflate st o))) = cls (fst st).
+Proof.
+  intros [c w] o. destruct o; cbn [step fst].
+  - pose proof (c_add_cls c w d now) as H. destruct (c_add deflate c w d now) as [[c' w'] r]. exact H.
+  - pose proof (c_add_bad_cls c w) as H. destruct (c_add_bad deflate c w) as [[c' w'] r]. exact H.
+  - reflexivity.
+  - apply c_reset_cls.
+  - pose proof (c_flush_cls c w) as H. destruct (c_flush deflate c w) as [[c' w'] r]. exact H.
+  - destruct c; reflexivity.
+  - destruct (c_info c). reflexivity.
+Qed.
+
+Lemma run_cls : forall ops st, cls (fst (fst (run deflate st ops))) = cls (fst st).
+Proof.
+  induction ops as [|o r IH]; intros st; [reflexivity|].
+  cbn [run]. pose proof (step_cls st o) as Hs. destruct (step deflate st o) as [st' b].
+  specialize (IH st'). destruct (run deflate st' r) as [st'' bs]. cbn [fst] in *. congruence.
+Qed.
+
+Lemma reachable_class : forall k n c w, unc_kind k = true -> reachable deflate k n (c, w) ->
+  match c with
+  | CUnc _ => plain_kind k = true
+  | CStream _ => stream_kind k = true
+  | CSDyn _ => sdyn_kind k = true
+  | _ => False
+  end.
+Proof.
+  intros k n c w Hk (fs & ops & E). pose proof (run_cls ops (init_state k n fs)) as H. rewrite E in H.
+  cbn [fst init_state] in H. destruct k; try discriminate Hk; cbn [new_coll cls] in H; destruct c; try discriminate H; reflexivity.
 Qed.
